@@ -41,7 +41,7 @@ Rel(wd, loc) ==
   ELSE LET i == FirstOcc(wd, loc) IN
        IF i = 0 THEN Abs(loc)
        ELSE [kind |-> "garbage", rest |-> SubSeq(loc, 1, i-1) \o <<"./">> \o SubSeq(loc, i+Len(wd), Len(loc)), len |-> CharLen(loc) - CharLen(wd) + 1]
-Root(kind, root, loc) == [kind |-> kind, rest |-> SubSeq(loc, Len(root)+1, Len(loc)), len |-> CharLen(loc) - CharLen(root) + 8]  \* "$GOPATH/"
+Root(kind, root, loc) == [kind |-> kind, rest |-> SubSeq(loc, Len(root)+1, Len(loc)), len |-> CharLen(loc) - CharLen(root) + 7]  \* the root and its trailing slash (CharLen(root) + 1 characters) become "$GOPATH/" (8)
 ImplShorten(wd, gopath, goroot, loc) ==
   LET rel == Rel(wd, loc)
       abs == IF IsPrefix(gopath, loc) THEN Root("gopath", gopath, loc)
